@@ -294,6 +294,93 @@ fn socks_cases(rng: &mut Rng) -> Vec<Case> {
     v
 }
 
+/// One connection that sends `bytes`, closes its writing side and waits for the handshake to give up on it.
+async fn abandoned(bytes: Vec<u8>) {
+    let Ok(l) = tokio::net::TcpListener::bind("127.0.0.1:0").await else { return };
+    let Ok(addr) = l.local_addr() else { return };
+    let app = tokio::spawn(async move {
+        if let Ok(mut s) = tokio::net::TcpStream::connect(addr).await {
+            let _ = s.write_all(&bytes).await;
+            tokio::time::sleep(Duration::from_millis(60)).await;
+            let _ = s.shutdown().await;
+            let mut b = [0u8; 256];
+            let _ = tokio::time::timeout(Duration::from_millis(1500), s.read(&mut b)).await;
+        }
+    });
+    if let Ok((mut inbound, _)) = l.accept().await {
+        let _ = tokio::time::timeout(Duration::from_secs(3), octo_squirrel_client::client::verif::get_request_addr(&mut inbound)).await;
+    }
+    let _ = app.await;
+}
+
+/// Histories of connections: what an EARLIER connection left behind must not matter to a later one. Rounds for lengths N:
+/// eight connections send the first N bytes of a (longer) request and give up; then eight connections send a complete,
+/// well-formed request of exactly N bytes in one piece. (Whatever a handshake keeps between connections - buffers, marks
+/// of how far it had looked - is the shared state of this property.)
+fn connection_histories(a: &Args, rep: &mut Report) {
+    let rt = tokio::runtime::Builder::new_multi_thread().worker_threads(4).enable_all().build().unwrap();
+    let rounds: Vec<usize> = if a.thorough { (60..=180).step_by(5).collect() } else { vec![61, 74, 88, 97, 113, 140] };
+    for (ri, n) in rounds.into_iter().enumerate() {
+        // complete requests of exactly n bytes: "CONNECT <host>:443 HTTP/1.1\r\nHost: <host>:443\r\n\r\n" = 2*len(host) + 42 (+1 to make it odd)
+        // and "GET http://<host>/ HTTP/1.1\r\nHost: <host>\r\n\r\n"                      = 2*len(host) + 33 (+1 ...)
+        let mut exact: Vec<Case> = Vec::new();
+        for (method, fixed) in [("CONNECT", 36usize), ("GET", 32)] {
+            let spare = n.saturating_sub(fixed);
+            let hl = spare / 2;
+            if hl < 4 || hl > 63 {
+                continue;
+            }
+            let host: String = format!("{}.example", "h".repeat(hl.saturating_sub(8)));
+            let host = if host.len() == hl { host } else { "h".repeat(hl) };
+            let pad = if spare % 2 == 1 { " " } else { "" }; // an optional space after the header's colon keeps the request well-formed
+            let (target, head) = if method == "CONNECT" {
+                (format!("{host}:443"), format!("CONNECT {host}:443 HTTP/1.1\r\nHost:{pad}{host}:443\r\n\r\n"))
+            } else {
+                (format!("http://{host}/"), format!("GET http://{host}/ HTTP/1.1\r\nHost:{pad}{host}\r\n\r\n"))
+            };
+            let head = if head.len() == n { head } else { continue };
+            let kind = if method == "CONNECT" { Kind::Connect } else { Kind::Plain };
+            exact.push(Case { kind, phases: vec![head.into_bytes()], cut_phase: 0, cuts: vec![], payload: b"PAYLOAD-after-http".to_vec(), expect: refimpl::http::expected_target(method, &target), label: format!("complete-request-of-{n}-bytes-after-connections-abandoned-at-{n}-bytes"), early: 0 });
+        }
+        if exact.is_empty() {
+            continue;
+        }
+        let long = format!("GET http://{}.example/some/longer/path?with=query HTTP/1.1\r\nHost: {}.example\r\nUser-Agent: osv\r\nAccept: */*\r\n\r\n", "a".repeat(70), "a".repeat(70));
+        let long2 = format!("CONNECT {}.example:8443 HTTP/1.1\r\nHost: {}.example:8443\r\nProxy-Connection: keep-alive\r\n\r\n", "b".repeat(70), "b".repeat(70));
+        let outs = rt.block_on(async {
+            let mut hs = Vec::new();
+            for k in 0..8 {
+                let src = if k % 2 == 0 { &long } else { &long2 };
+                hs.push(tokio::spawn(abandoned(src.as_bytes()[..n.min(src.len() - 1)].to_vec())));
+            }
+            for h in hs {
+                let _ = h.await;
+            }
+            let mut outs = Vec::new();
+            let mut hs = Vec::new();
+            for k in 0..8 {
+                let c = exact[k % exact.len()].clone();
+                hs.push(tokio::spawn(async move { (c.clone(), run_case(&c).await) }));
+            }
+            for h in hs {
+                if let Ok(x) = h.await {
+                    outs.push(x);
+                }
+            }
+            outs
+        });
+        rep.mon("connections_abandoned_in_the_middle_of_a_request", 8);
+        for (k, (c, out)) in outs.into_iter().enumerate() {
+            rep.case(&("history", ri, k), true);
+            rep.mon("complete_requests_behind_abandoned_ones", 1);
+            match out {
+                Err(e) => rep.inconclusive(format!("harness: {}", panicmon::normalise(&e))),
+                Ok(o) => judge(rep, &c, o, a.seed, (1_000_000 + ri * 8 + k) as u64),
+            }
+        }
+    }
+}
+
 pub fn run(a: &Args) -> Report {
     let seed = a.seed;
     let mut rng = Rng::derive(seed, 0xC13, 0);
@@ -375,5 +462,6 @@ pub fn run(a: &Args) -> Report {
     });
     rep.sample(json!({"grammar": "methods {GET,POST,PUT,OPTIONS,HEAD,CONNECT} x hosts {reg-names 1..63, IPv4, bracketed IPv6} x ports {absent,1,80,8080,65535} x paths {'', '/', '/a/b', '/a:b', '/x://y', '/p/', '/@scope/pkg', '/u:p@h:9/c'} x queries {'', '?a=b', '?u=http://h:1/', '?a?b', '?x=/', '?mail=bob@files.example.net', '?r=@h:81/'} (full product) + malformed variants + SOCKS5 (3 address types, unsupported commands/methods/versions)", "whole_requests": whole, "segmented_requests": total - whole - n_early, "early_data_requests": n_early, "oracle": "refimpl::http::expected_target (RFC 9112 request-target, RFC 3986 authority) / RFC 1928"}));
     rep.extra.insert("exhaustive_detail".into(), json!("the request-target grammar product is enumerated completely (whole delivery); every single cut position is enumerated for a sample of requests of each kind"));
+    connection_histories(a, &mut rep);
     rep
 }
